@@ -704,6 +704,9 @@ class Canon:
             return in_s + '.' + e.name
         if k == 'call':
             ln = last(e.name)
+            if ln == 'from' and len(e.args) == 1 and (e.ty or '').strip() in INTW and 'convert::From<' in (e.name or ''):
+                # uN::from(narrower integer) is the widening cast
+                return self.c(E('cast', 'IntToInt', [e.args[0]], ty=(e.ty or '').strip()))
             # unwrap(Some(x)) == x ; Option::as_ref is a view
             if ln in ('unwrap', 'expect') and e.args:
                 a0 = strip(e.args[0])
@@ -732,7 +735,7 @@ class Canon:
                 parts = []
                 n_ = bt_[2]
                 for i_, b_ in enumerate(strip(e.args[0]).args):
-                    f_ = 'from(%s)' % self.c(b_)
+                    f_ = '(%s as %s)' % (self.c(b_), bt_[1])
                     sh_ = 8 * (n_ - 1 - i_)
                     parts.append('Shl(%s, %d)' % (f_, sh_) if sh_ else f_)
                 r_ = parts[0]
@@ -802,6 +805,19 @@ class Canon:
         if k in ('binop', 'unop'):
             return '%s(%s)' % (e.name, ', '.join(self.c(a) for a in e.args))
         if k == 'cast':
+            T_ = (e.ty or '').strip()
+            in_ = strip(e.args[0])
+            if T_ in INTW and T_ != 'u8':
+                # one byte of a word, widened: `(y & 0xff) as T`, `(y >> (N-8)) as T` for y: uN and `(y as u8) as T` are one value
+                if in_.k == 'binop' and in_.name == 'BitAnd' and len(in_.args) == 2:
+                    for a_, b_ in ((in_.args[0], in_.args[1]), (in_.args[1], in_.args[0])):
+                        if const_int(b_) == 255:
+                            return '((%s as u8) as %s)' % (self.c(a_), T_)
+                if in_.k == 'binop' and in_.name == 'Shr' and len(in_.args) == 2:
+                    w_ = INTW.get((strip(in_.args[0]).ty or in_.ty or '').strip())
+                    sh_ = const_int(in_.args[1])
+                    if w_ and sh_ == 8 * w_ - 8:
+                        return '((%s as u8) as %s)' % (self.c(in_), T_)
             return '(%s as %s)' % (self.c(e.args[0]), e.ty)
         if k == 'index':
             from .prov import const_int as _ci
